@@ -1,17 +1,19 @@
 """C19 source tie, harness side: the Python text of `simple_random_sampling_without_replacement` and
-`binomial_coefficient` (src/pydrobert/torch/_combinatorics.py), translated to MiniPy by py2coq on this run
-(PV.Gen.C19Src) and interpreted INSIDE Coq with the torch calls given the meaning of PV.MiniTorch.OpsC19
-(PV.C19.SrcRun.ext19), is run on the combinatorics cases of the run and compared with what the implementation
-returned.  This validates translator + interpreter + ext19 + op semantics against CPython/torch on every run
+`binomial_coefficient` (src/pydrobert/torch/_combinatorics.py) and four marked blocks of
+`IndependentMetropolisHastingsEstimator.__call__` (_mc.py), translated to MiniPy by py2coq on this run
+(PV.Gen.C19Src, PV.Gen.C19McSrc) and interpreted INSIDE Coq with the torch calls given the meaning of
+PV.MiniTorch.OpsC19 (PV.C19.SrcRun.ext19, PV.C19.SrcRunMc.ext19mc + the glue mh_run), is run on the combinatorics
+and Metropolis-Hastings cases of the run and compared with what the implementation returned.  This validates translator + interpreter + ext19 + op semantics against CPython/torch on every run
 and is independent of whether C19/Tie*.v still compile."""
 import time
 from fractions import Fraction as Fr
 
 from vlib import cl, cn, co, cp, cq, cz, coq_eval_bools
 
-IMPORTS_SRC = "From PV Require C19.SrcRun.\n"
+IMPORTS_SRC = "From PV Require C19.SrcRun C19.SrcRunMc.\n"
 SRC_THEOREMS = ["c19_source_srswor_is_model", "c19_source_srswor_raises_iff", "c19_source_srswor_cardinality_and_positions",
-                "c19_source_binom_is_model", "c19_source_binom_is_pascal", "c19_source_binom_is_factorial_quotient"]
+                "c19_source_binom_is_model", "c19_source_binom_is_pascal", "c19_source_binom_is_factorial_quotient",
+                "c19_source_mh_step_is_model", "c19_source_mh_step_accepts_all_when_equal"]
 
 
 def _nats(xs):
@@ -59,7 +61,25 @@ def binom_term(case, res):
     return f"SrcRun.src_binom_check {_nats([n])} {_zs(lens)} {_nats([n])} {_zs(cnts)} {_impl(res, [n], res.get('out') or [])}"
 
 
+def imh_term(case, res):
+    """bool: the marked blocks of IndependentMetropolisHastingsEstimator.__call__ (mh_init / mh_accept / mh_update / mh_final),
+    interpreted and glued as the `for` loop glues them (SrcRunMc.mh_run), on the case's ratio / function tables, proposals and
+    uniforms - same interface, inputs and tolerance as Model.imh_check"""
+    import props.c19 as c19
+    t = c19.imh_model_term(case, {"exc": res.get("exc"), "out": res.get("out")})
+    if not t.startswith("imh_check "):
+        return None
+    return "SrcRunMc.src_imh_check " + t[len("imh_check "):]
+
+
 def _eligible(case, res):
+    if case.get("fam") == "est" and case.get("kind") == "imh" and isinstance(res, dict):
+        if case.get("is_log"):
+            return None              # the blocks are interpreted with is_log = False
+        exc = res.get("exc")
+        if exc is not None and not exc.startswith("RuntimeError: Unable to find initial sample"):
+            return None
+        return "imh"
     if case.get("fam") != "comb" or not isinstance(res, dict):
         return None
     exc = res.get("exc")
@@ -86,13 +106,14 @@ def source_tie(chk, cases, outs):
         k = _eligible(c, o)
         if k is None:
             continue
-        t = srswor_term(c, o) if k == "srswor" else binom_term(c, o)
+        t = srswor_term(c, o) if k == "srswor" else binom_term(c, o) if k == "binom" else imh_term(c, o)
         if t is not None:
             idx.append(i)
             terms.append(t)
             kinds.append(k)
     chk.extra["source_tie"] = {
-        "unit": "C19Src", "functions": ["simple_random_sampling_without_replacement", "binomial_coefficient"],
+        "unit": "C19Src + C19McSrc", "functions": ["simple_random_sampling_without_replacement", "binomial_coefficient",
+                                                   "IndependentMetropolisHastingsEstimator.__call__ (4 marked blocks)"],
         "theorems": SRC_THEOREMS}
     if not idx:
         chk.extra["source_tie_run"] = {"cases": 0, "disagreements": 0}
@@ -106,6 +127,7 @@ def source_tie(chk, cases, outs):
     bad = [j for j, ok in enumerate(res) if not ok]
     sr = [i for i, k in zip(idx, kinds) if k == "srswor"]
     bi = [i for i, k in zip(idx, kinds) if k == "binom"]
+    mh = [i for i, k in zip(idx, kinds) if k == "imh"]
     chk.extra["source_tie_run"] = {
         "cases": len(idx), "disagreements": len(bad), "wall_s": round(time.time() - t0, 1),
         "srswor": len(sr), "srswor_rows": sum(len(cases[i]["total"]) for i in sr),
@@ -113,12 +135,15 @@ def source_tie(chk, cases, outs):
         "srswor_scalar_given": sum(1 for i in sr if cases[i].get("clayout") == "scalar"),
         "srswor_out_size_none": sum(1 for i in sr if cases[i].get("none_out")),
         "binom": len(bi), "binom_table_branch": sum(1 for i in bi if max(cases[i]["lens"]) > 20),
-        "binom_raises": sum(1 for i in bi if outs[i].get("exc"))}
+        "binom_raises": sum(1 for i in bi if outs[i].get("exc")),
+        "imh": len(mh), "imh_steps": sum(cases[i]["N"] for i in mh), "imh_given": sum(1 for i in mh if cases[i]["given"] is not None),
+        "imh_same": sum(1 for i in mh if cases[i]["same"])}
     chk.count("source_tie_cases", len(idx))
     if bad:
         j = bad[0]
         i = idx[j]
-        fn = "simple_random_sampling_without_replacement" if kinds[j] == "srswor" else "binomial_coefficient"
+        fn = {"srswor": "simple_random_sampling_without_replacement", "binom": "binomial_coefficient",
+              "imh": "IndependentMetropolisHastingsEstimator.__call__ (blocks)"}[kinds[j]]
         chk.report({"case": cases[i], "impl": outs[i],
                     "what": f"the Python source of {fn} as translated to MiniPy and interpreted in Coq (PV.C19.SrcRun, torch "
                             "calls = PV.MiniTorch.OpsC19) does not reproduce the implementation's output: translator / "
